@@ -94,3 +94,42 @@ func verifLemmaRoundTripUDP(u *UDP, b gopacket.SerializeBuffer, cs bool, df gopa
 //@   props C08
 //@   at computeChecksum 0: assert sameSlice(arg1, sbview(b)) && sbview(b)[16] == 0 && sbview(b)[17] == 0 && arg2 == 6
 //@   ensures result == nil ==> be16(sbview(b), 16) == t.Checksum
+
+// Ethernet II (C06): 14 header bytes - destination, source, type - in front of the untouched payload; frames
+// shorter than 60 bytes are padded at the end (so the round trip is stated for payloads of at least 46 bytes).
+//@ func (eth *Ethernet) SerializeTo(b gopacket.SerializeBuffer, opts gopacket.SerializeOptions) error
+//@   props C06
+//@   ensures result == nil ==> len(eth.DstMAC) == 6 && len(eth.SrcMAC) == 6
+//@   ensures result == nil && old(len(sbview(b))) >= 46 ==> len(sbview(b)) == old(len(sbview(b))) + 14
+//@   ensures result == nil ==> len(sbview(b)) >= old(len(sbview(b))) + 14
+//@   ensures result == nil ==> forall k in 0..6 :: sbview(b)[k] == eth.DstMAC[k] && sbview(b)[6 + k] == eth.SrcMAC[k]
+//@   ensures result == nil && eth.Length == 0 && eth.EthernetType != 0 ==> be16(sbview(b), 12) == eth.EthernetType
+//@   ensures eth.EthernetType == old(eth.EthernetType) && (old(eth.Length) == 0 && old(eth.EthernetType) != 0 ==> eth.Length == 0)
+//@   ensures result == nil ==> forall k int :: 0 <= k && k < old(len(sbview(b))) ==> sbview(b)[14 + k] == old(sbview(b)[k])
+
+//@ func (eth *Ethernet) DecodeFromBytes(data []byte, df gopacket.DecodeFeedback) error
+//@   props C06
+//@   ensures len(data) >= 14 ==> result == nil
+//@   ensures result == nil ==> len(data) >= 14 && eth.DstMAC.arr == data.arr && eth.DstMAC.off == data.off && len(eth.DstMAC) == 6
+//@   ensures result == nil ==> eth.SrcMAC.arr == data.arr && eth.SrcMAC.off == data.off + 6 && len(eth.SrcMAC) == 6
+//@   ensures result == nil && be16(data, 12) >= 1536 ==> eth.EthernetType == be16(data, 12) && eth.Length == 0
+//@   ensures result == nil && be16(data, 12) >= 1536 ==> eth.BaseLayer.Payload.arr == data.arr && eth.BaseLayer.Payload.off == data.off + 14 && len(eth.BaseLayer.Payload) == len(data) - 14
+
+// Round trip (C06): an Ethernet II header (type >= 0x0600) over a payload of at least 46 bytes decodes to the same
+// addresses, type and payload window.
+//@ func verifLemmaRoundTripEthernet(eth *Ethernet, b gopacket.SerializeBuffer, df gopacket.DecodeFeedback) bool
+//@   props C06
+//@   requires len(sbview(b)) >= 46 && len(sbview(b)) <= 1099511627000 && eth.EthernetType >= 1536 && eth.Length == 0
+//@   ensures result
+
+func verifLemmaRoundTripEthernet(eth *Ethernet, b gopacket.SerializeBuffer, df gopacket.DecodeFeedback) bool {
+	n := len(b.Bytes())
+	err := eth.SerializeTo(b, gopacket.SerializeOptions{FixLengths: true})
+	dst, src, typ := eth.DstMAC, eth.SrcMAC, eth.EthernetType
+	var d Ethernet
+	derr := d.DecodeFromBytes(b.Bytes(), df)
+	return err != nil || (derr == nil && len(d.DstMAC) == 6 && len(d.SrcMAC) == 6 && len(dst) == 6 && len(src) == 6 &&
+		d.DstMAC[0] == dst[0] && d.DstMAC[1] == dst[1] && d.DstMAC[2] == dst[2] && d.DstMAC[3] == dst[3] && d.DstMAC[4] == dst[4] && d.DstMAC[5] == dst[5] &&
+		d.SrcMAC[0] == src[0] && d.SrcMAC[1] == src[1] && d.SrcMAC[2] == src[2] && d.SrcMAC[3] == src[3] && d.SrcMAC[4] == src[4] && d.SrcMAC[5] == src[5] &&
+		d.EthernetType == typ && d.Length == 0 && len(d.Payload) == n)
+}
